@@ -16,13 +16,22 @@ RULE = ("real static squareroot() of qmail-send.c on every age in [0,2^%(sq)s) p
         "pqrun/pqfinish/pass_selprep with a virtual clock stepped to just before/at/after each computed retry time, ALRM, "
         "TERM+restart, queuelifetime from 0 upwards, and injected system failures on about a fifth of the passes (open_read of the "
         "channel file or of info/<id> fails -> trouble exit; unlink of the finished channel file fails; stat of the other channel "
-        "file fails: the libc call is wrapped inside the included source only) (oracle: no start before the due time, earliest-due "
+        "file fails: the libc call is wrapped inside the included source only), plus (session 4) the other failure paths as further history steps: "
+        "`d[,fault]` = the pqdone part of the real pass_do() -> real messdone() with a failing stat of local/remote/todo/info, a failing "
+        "injectbounce or a failing unlink of info/<id> (qmail-clean replaced by a pipe pair on fd 5/6, qmail.o by a stand-in), "
+        "`p..,x<k>` / `p..,r` = record k of the started channel file has an unknown type / read() of the channel file fails (the two exits "
+        "of pass_dochan that call job_close with flaghiteof = 0), `f,<c>:<id>..` = pqfinish() with utimes failing on chosen channel files "
+        "(oracle: no start before the due time, earliest-due "
         "first, retry time strictly in the future and equal to the quadratic formula, not beyond birth+(isqrt(lifetime)+skip)^2 before "
         "expiry, a ghost monitor of theorem C15_hist_backoff: no later start of the same message on the channel before the back-off "
         "time owed since its last temporary failure, across TERM+restart; expired pass turns every Z into D with the too-long text and "
         "marks it, restart preserves the schedule, ALRM makes everything due, after a failed open/unlink the message stays scheduled "
         "and strictly later, nothing is lost: every existing channel file is on its channel heap and a message that left its last "
-        "channel is in pqdone); nextretry() at the edges of the no-overflow range (births up to LONG_MAX-65555^2, LONG_MIN, ages up "
+        "channel is in pqdone; messdone: only the due minimum of pqdone moves, afterwards pqdone is the rest or the rest plus the message "
+        "strictly in the future, a message still on disk without channel files stays in pqdone, a message leaves the disk only without an "
+        "injected failure and without channel files; cut pass: re-inserted exactly at jo.retry, records before the cut handled and the rest "
+        "untouched, pqdone untouched; failing utimes: the file keeps the mtime it had, every other file carries its due time, and the next "
+        "process loads exactly those mtimes); nextretry() at the edges of the no-overflow range (births up to LONG_MAX-65555^2, LONG_MIN, ages up "
         "to LONG_MAX) compared with the wrapped-arithmetic model; %(np)s pqadd()/pqfail scenarios through the real pass_do()+pqadd() "
         "with per-file stat outcomes exists/ENOENT/EIO for info, todo, local, remote (all four heaps compared after each call; oracle: "
         "message never lost from all heaps, enters a channel heap only with the file's mtime, pqfail re-insertion in the future); "
@@ -43,7 +52,11 @@ RULE = ("real static squareroot() of qmail-send.c on every age in [0,2^%(sq)s) p
         "pqfail, head of pqdone - having really slept; a daemon that uses up its select budget is reported too; after ALRM every channel "
         "heap head is due; BACK-OFF ACROSS DAEMON PROCESSES, black box on the delivery commands and reports: a recipient reported Z in a pass "
         "whose retry time is R (jo.retry, printed with each command) is not started again before R by this or any later daemon unless ALRM "
-        "intervened - this is what found the TERM-mid-pass defect fixed in /repo be3a18d; correspondence: the timeout equals "
+        "intervened - this is what found the TERM-mid-pass defect fixed in /repo be3a18d; (session 4) in a fifth of the scenarios the n-th "
+        "unlink() of the daemon fails with EIO and in half of those with a clean stop the n-th utimes() of the exit sequence fails (by call "
+        "index, through qsim's gate hook): after a failed unlink of a finished channel file / of info/<id> the next select must show that "
+        "channel heap / pqdone with an entry due no later than failure time + SLEEP_SYSFAIL, the promptness oracle goes on applying to the "
+        "re-inserted entries, and a failed utimes exempts exactly that channel file from the back-off oracle; correspondence: the timeout equals "
         "Nq.SelPrep.timeout of the snapshot at every select, and jo.retry / flagdying of every command equal Nq.Sched.jobOpen at the "
         "`recent` of the moment the pass was OPENED (first select showing pass[c] open), for the messages whose birth the scenario fixes). "
         "Crash restarts (L without f) in hand-written S cases: every existing channel file must be scheduled again, at its persisted "
@@ -182,7 +195,7 @@ def main():
     if s.ok and c.driver_ok:
         try:
             h = s.cc(os.path.join(VERIF, "harness/c15_sched.c"), os.path.join(s.dir, "h_c15"),
-                     link_like="qmail-send", objs_exclude=["qsutil.o"])
+                     link_like="qmail-send", objs_exclude=["qsutil.o", "qmail.o"])
             drv = driver_path("drv_c15")
             # the select-loop leg: the real main() of qmail-send and qmail-clean as qsim program instances (harness/c15_loop.c)
             o1, e1 = s.prog_object("qs", "qmail-send.c", "qmail-send", keep_globals=LOOP_GLOBALS, objs_exclude=["qmail.o"])
@@ -231,7 +244,9 @@ def main():
         "the file system keeps the mtime given to utimes() and returns it from stat() (pqfinish/pqadd; exercised on the real kernel FS in the history harness)",
         "qmail-lspawn/qmail-rspawn report every started delivery with a K, Z or D line (a mangled report is deferred even in the expiring pass: complement theorem C15_dying_mangled)",
         "allocation failure (prioq_readyplus, nomem loops) is not modelled",
-        "system failures are injected by wrapping stat/unlink/open_read inside the included qmail-send.c (EIO on chosen paths); the paths 'trouble reading' (getln fails mid-pass) and 'unknown record type' are covered by theorem C15_jobclose (hiteof=false) but not driven by the harness; utimes failure in pqfinish and messdone's own failure path (pqdone re-insertion) are outside the model",
+        "system failures are injected by wrapping stat/unlink/open_read inside the included qmail-send.c (EIO on chosen paths); 'trouble reading' (read() of the channel file fails: only before the first record, the whole file fits one buffer) and 'unknown record type' (any record) are driven as history steps; utimes (pqfinish) and messdone's calls fail on chosen files; in the select-loop scenarios unlink/utimes fail by call index, stat failures after start-up are not injected there",
+        "a failing utimes at exit makes the next process retry the message at the file's old mtime - earlier than its back-off time (theorems C15_fail_utimes / C15_fail_utimes_early; the code's own warning says so): this is the one failure that can make a retry EARLIER; the history oracles exempt exactly that file and count the occurrences",
+        "the mtime a markdone write leaves on the real file system is the real time of day, which the model does not fix: when utimes fails on a file that was written since its mtime was last known, the driver adopts the implementation's mtime for that file",
         "nextretry overflow: C signed overflow is undefined behaviour; the complement theorem C15_overflow_wraps describes the two's-complement result, which is not exercised on the UBSan build",
         "the history harness (S cases) drives pass_dochan/del_dochan/pqrun/pqfinish/pqstart directly; main()'s select loop is exercised by the W scenarios (real main() under qsim), where time passes only inside select(): the clock read by recent = now() is the clock at which select() is entered",
         "history-level theorems C15_hist_* treat a pass as ONE step (opened, all recipients answered, job_close at one clock value; a free job slot; started/passes: no fault, clock standing still): interrupted passes - clock, other channel, reports of other jobs, TERM+exit+restart while a pass is open - are the subject of C15_pass_* over Nq.SchedPass.pstep (no faults there; back-off time = the one computed when the job was opened); the fine-grained model is tied to the code by the W scenarios (jobOpen at open time compared per command; exit behaviour by the black-box back-off oracle), not by a step-by-step replay",
@@ -240,7 +255,7 @@ def main():
         "select-loop snapshot: between recent = now() and select() the main loop only runs the *_selprep functions, which do not write the globals they read; the struct mirrors in harness/c15_loop.c (pass[].id, jo[].refs) follow qmail-send.c",
     ]
     standard_verdict(c, ok, stats, disagree, oracle, errors,
-                     "Nq.Sched (squareroot/nextretry/PQ/passStart/jobOpen/report/pqrun/pqfinish/pqstart/passTrouble/jobCloseF/pqaddF/passDoFail) and Nq.SchedHist.step vs qmail-send.c + prioq.c; Nq.SelPrep.timeout vs the select timeout of qmail-send.c main() on snapshots of its globals",
+                     "Nq.Sched (squareroot/nextretry/PQ/passStart/jobOpen/report/pqrun/pqfinish/pqstart/passTrouble/jobCloseF/pqaddF/passDoFail), Nq.SchedHist.step and Nq.SchedFail.fstep (messdone/doneSt, passCutSt, finFSt) vs qmail-send.c + prioq.c; Nq.SelPrep.timeout vs the select timeout of qmail-send.c main() on snapshots of its globals",
                      neighbourhood,
                      replay_hint="./check C15 --replay <file of stdin cases for harness/c15_sched.c: Q lo hi | N birth recent chan | H ops | S lifetime script | P recent now pqfail files ncalls; for harness/c15_loop.c: W scenario> (or the replay JSON itself)")
     c.finish()
